@@ -6,6 +6,7 @@ ids=${@:-$(ls seeded)}
 missed=0
 for id in $ids; do
   prop=${id%%-*}
+  if grep -q '"obsolete_since"' seeded/$id/meta.json 2>/dev/null; then echo "$id obsolete :: $(jq -r .obsolete_since seeded/$id/meta.json | cut -c1-160)"; continue; fi
   line=$(tools/mutant_eval.sh seeded/$id/patch.diff $prop 2>&1 | tail -1)
   case "$line" in *"exit=1 violations="[1-9]*) st=caught ;; *) st=MISSED; missed=$((missed+1)) ;; esac
   echo "$id $st :: $line" | cut -c1-260
